@@ -549,6 +549,10 @@ class Gen:
         st = {"k": "povm", "ops": [c2j(M) for M in Ms], "targets": tg, "povm_kind": kind,
               "destr": bool(self.p(0.5))}
         st.update(via)
+        if via["via"] == "state" and v["sn"].subs[tg[0]]["state"][0] != "none" and v["w"].kind(tg[0]) in ("F", "P") and self.p(0.35):
+            # documented keyword of the subsystem's own entry point: measure this state only, the envelope partner stays
+            # (only where the subsystem holds its own state; elsewhere the keyword is not forwarded and not specified)
+            st["partial"] = True
         return st
 
     def step_measure(self, v):
